@@ -24,6 +24,7 @@ type SpecEnv struct {
 	depth  int
 	reveal map[string]bool
 	inOld  bool
+	entryTop string // allocator position at the entry of the function whose contract is evaluated
 }
 
 func (e *SpecEnv) with(vars map[string]Val) *SpecEnv {
@@ -522,6 +523,11 @@ func (e *SpecEnv) binary(x *EBinary) Val {
 	switch x.Op {
 	case "==", "!=":
 		a, b = e.unify(a, b)
+		if isNilVal(a) && !isNilVal(b) {
+			a = Val{T: b.T, C: e.fx.zeroVal(b.T)}
+		} else if isNilVal(b) && !isNilVal(a) {
+			b = Val{T: a.T, C: e.fx.zeroVal(a.T)}
+		}
 		if len(a.C) != len(b.C) {
 			sfail("comparing values of different shape in %s (%s vs %s)", x, typeStr(a.T), typeStr(b.T))
 		}
@@ -828,7 +834,11 @@ func (e *SpecEnv) call(x *ECall) Val {
 	case "fresh":
 		v := e.eval(x.Args[0])
 		// allocated after function entry
-		return boolVal(sx(">", v.C[0], "alloc$top@entry"))
+		et := e.entryTop
+		if et == "" {
+			et = e.fx.entryTop
+		}
+		return boolVal(sx(">", v.C[0], et))
 	}
 	// conversion to a basic / named type?
 	if t := e.fx.eng.tryResolveType(e.pkg, id.Name); t != nil {
@@ -1012,3 +1022,8 @@ func lastSlash(s string) string {
 }
 
 var _ = ssa.NaiveForm
+
+func isNilVal(v Val) bool {
+	b, ok := v.T.(*types.Basic)
+	return ok && b.Kind() == types.UntypedNil
+}
